@@ -240,6 +240,7 @@ class SObj:
         self.fields: Dict[str, Any] = dict(fields or {})
         SObj._n += 1
         self.label = label or f"o{SObj._n}"
+        self.attr_hook = None  # optional: hook(interp, name) -> value or _MISSING (e.g. abstract class attributes)
 
     def cls_name(self):
         return self.cls.name if isinstance(self.cls, ClassValue) else str(self.cls)
@@ -948,6 +949,10 @@ class Interp:
                 return self.call(v.fget, [obj], {})
             if name in obj.fields:
                 return obj.fields[name]
+            if obj.attr_hook is not None:
+                hv = obj.attr_hook(self, name)
+                if hv is not _MISSING:
+                    return hv
             if name == "__dict__":
                 return _DictProxy(obj)
             if name == "__class__":
